@@ -28,11 +28,11 @@ _ALL = {
  'C08': ('reference-reader differential monitoring of spifopt_parse on generated option tables and argument vectors (well-formed population: exact targets, masks, residual argv; arbitrary population: sanitizer silence and logical-step termination bound), every buffer an exact-size heap block, ASan+UBSan',
          'Abstract commands are printed in random spellings and parsed under all four {pre-parse, remove-args} settings and two-pass use; an independent reader gives the expected state of every target and argv.'),
  'C09': ('event-log monitor with unique state tokens: generated config file trees parsed by the real parser with logging context handlers; log compared with a line-grammar model (order, exactly-once, innermost context, state threading); stack indices/capacities peeked through a guarded accessor; fd census',
-         'Trees with nesting depth classes up to 255, include chains, surplus ends, unknown contexts; events and state threading compared with the model after each parse.'),
+         'Trees with nesting depth classes up to 255, include chains up to 248 files deep, over-long lines, surplus ends, unknown contexts, null-context replacement at any point, full context tables; events and state threading compared with the model after each parse.'),
  'C10': ('reference-expander differential monitoring of config value expansion plus purity monitoring: each case executed under pattern- and zero-initialised stack builds, two heap fill bytes and stack scribbling, outputs must be byte-identical; exact-size input blocks under ASan for over-reads',
          'Grammar-generated value strings with escapes, tilde, $-forms, quotes, %-calls and put/get histories in hermetic environments (wrapped getenv).'),
  'C11': ('sanitizer-monitored robustness workloads for the config subsystem (random and mutated files, registration stress, path lookups up to and beyond PATH_MAX), link-time spawn monitor (system/fork/exec/popen wrapped, never executed), temp-file mode/uniqueness monitor, init/use/free lifecycle conservation monitor',
-         'Byte-level hostile inputs and lifecycle programs; spawn attempts counted at wrapped entry points; heap balance and behaviour equality across cycles.'),
+         'Byte-level hostile inputs and lifecycle programs (incl. lines handed over from argv) on pattern- and zero-initialised stack builds; spawn attempts counted at wrapped entry points (the monitor can play a pass-through preprocessor); heap balance and behaviour equality across cycles.'),
  'C12': ('reference-tokenizer differential monitoring of spiftool_split, the tok class and the word utilities: exhaustive strings over a 6-symbol alphabet up to a length bound plus random long strings, every input an exact-size heap block under ASan',
          'Exhaustive small-scope enumeration x delimiter sets; split vs reference, tok vs split, join/split round trip, word-utility consistency.'),
  'C13': ('exhaustive-grid reference monitoring of safe_strncpy/safe_strncat/substr and the in-place helpers with exact-size heap destinations (ASan red zones) and in-block canaries',
@@ -41,14 +41,14 @@ _ALL = {
          'All 2^7 presence shapes over unambiguous alphabets and five lookup outcomes; robustness on random bytes.'),
  'C15': ('shadow-table monitor: random interleavings of the tracked allocation calls and macros on a DEBUG=5 sanitizer build, tracker table (guarded accessor) compared with a shadow dictionary after every operation; macro-semantics differential between tracking and non-tracking builds',
          'Pools with NULL, live, moved and untracked pointers, runtime level toggling, file-name length classes; table must mirror the shadow exactly after each operation.'),
- 'C16': ('exhaustive execution of a frozen guard table: every guarded (entry point or class-table slot, pointer parameter) called with NULL in a forked child at runtime debug levels 0 and >=1; return value, ASan malloc-hook allocation count, two-level argument snapshots and exit path checked',
-         'The table was generated once from the pinned tree (744 rows) and is the oracle; every row x level cell is executed on every run.'),
+ 'C16': ('exhaustive execution of frozen guard tables: every guarded (entry point or class-table slot, pointer parameter) called with NULL in a forked child at runtime debug levels 0 and >=1; return value, ASan malloc-hook allocation count, two-level argument snapshots, snapshot of the library\'s exported data objects and exit path checked',
+         'Tables frozen from the source (guard macros, wrappers, constructors) and from observation (positions refused by a guard of a callee, positions that accept NULL) are the oracle; every row and its companions (other NULL-tolerant pointers NULL too; string arguments set to literals the function compares with) x level cell is executed on every run.'),
  'C17': ('exhaustive short-string pairs plus long-run and well-formed generated pairs through spiftool_version_compare under ASan+UBSan; antisymmetry/reflexivity; determinism monitor (different prior calls, stack scribbling, pattern vs zero auto-init builds); reference comparator for well-formed versions',
          'All ordered pairs of strings up to a length bound over a 6-symbol alphabet, runs longer than the 128-byte scratch buffers, generated versions vs the reference order.'),
  'C18': ('sanitizer-instrumented differential execution against independent reference hash definitions over an exhaustive (length, alignment, seed, content) grid; guard-page and changing-surroundings placement monitors',
          'Runs the real hash functions on the complete stated grid plus random keys; value equality with reference definitions, placement independence and exact read extent observed on every evaluation.'),
  'C19': ('fault-schedule injection at link-time-wrapped read/write/accept (short, EINTR, EAGAIN) on real UNIX-domain sockets created through the URL API; payload integrity oracle; descriptor ledger over wrapped socket/accept/dup/close plus /proc/self/fd census; ASan+UBSan',
-         'Lifecycle scenarios incl. failed opens/accepts; all fault sequences for the first k<=3 calls enumerated, longer ones sampled.'),
+         'Lifecycle scenarios incl. failed opens/accepts (also dup failing inside accept), transfers over copies whose original is closed, double-close detection; all fault sequences for the first k<=3 calls enumerated, longer ones sampled.'),
  'C20': ('exhaustive configuration matrix: one probe translation unit built for compile-time DEBUG 0,1,2,3,4,5,9999, every macro of the family run in a forked child at runtime levels 0..6 with silent on/off; stderr, side-effect counters and exit path compared with the truth table of the statement',
          'Every cell of the matrix is executed and counted.'),
 }
